@@ -357,6 +357,8 @@ def check(ctx):
         # C07.Q (the same clause): what the builder will drop is what was written - its position moves only inside judged element-moving steps
         from . import c03 as _c03
         _c03.check_position_stores(ctx, cfg, "C07.Q")
+        from . import c05 as _c05
+        _c05.check_drop_ranges(ctx, cfg)   # (and its Drop releases exactly [0, position): C05.R, shared)
         # C07.D: builder liveness at foreign calls
         db = ctx.db(cfg)
         a = ctx.analysis(cfg, K_TRY)
